@@ -125,7 +125,12 @@ TSnap ==
                                ELSE SnapBlock(Ev.t) /\ Len(txn'[Ev.t].sn.blocks) = Ev.b
        [] Ev.at = "closing" -> IF txn[Ev.t].pc = "snap.open" THEN SnapHeader(Ev.t) /\ txn'[Ev.t].sn.nb = 0
                                ELSE SnapBlock(Ev.t) /\ Len(txn'[Ev.t].sn.blocks) = txn[Ev.t].sn.nb
-       [] Ev.at = "copying" -> SnapClose(Ev.t)
+       \* real parallelism (par/c08): a block is logged from inside its read latch, by a probe column of the harness whose
+       \* Snapshot method the library calls there; "allread": every block written, the recorder still installed (the harness
+       \* lets no transaction run between this point and "copying", so that the detaching has an exact place in the trace)
+       [] Ev.at = "read"    -> SnapBlock(Ev.t) /\ Len(txn'[Ev.t].sn.blocks) = Ev.b + 1
+       [] Ev.at = "allread" -> SnapAllRead(Ev.t)
+       [] Ev.at = "copying" -> IF txn[Ev.t].pc = "snap.copy" THEN UNCHANGED vars ELSE SnapClose(Ev.t)
        \* C14: a destination that failed at any point makes Snapshot return an error
        [] Ev.at = "ret"     -> /\ Ev.dstfailed => Ev.err
                                /\ IF Ev.err THEN (SnapFail(Ev.t) \/ SnapBusy(Ev.t, Ev.c)) ELSE SnapCopy(Ev.t, Ev.file)
